@@ -57,7 +57,14 @@ def gen_case(rng: random.Random, tier: str) -> dict:
         f = "y + x ~ " + f
     k = rng.randint(1, len(terms) + (1 if icpt else 0))
     return {"cols": cols, "formula": f, "lhs": lhs, "output": rng.choice(["pandas", "numpy", "sparse"]), "subset_k": k,
+            "cluster": rng.choice([None, None, "numerical_factors"]), "ordering": rng.choice(["degree", "degree", "none", "sort"]),
             "subset_seed": rng.randrange(1 << 30), "shape": sorted(len(t) for t in terms), "levels": levels}
+
+
+def gen_split(name):
+    from ..gen import split_label
+
+    return split_label(name)
 
 
 def check_spec(ms, M, mm, out, tag, case):
@@ -72,8 +79,25 @@ def check_spec(ms, M, mm, out, tag, case):
     if cat != list(range(ncol)):
         out.fail("c10.term_ranges", f"{tag}: term index ranges {dict((str(k), v) for k, v in ms.term_indices.items())} do not tile 0..{ncol - 1} in order")
         return False
-    if [t for t in ms.term_indices] != list(ms.formula):
+    if sorted(map(str, ms.term_indices)) != sorted(map(str, ms.formula)):
+        out.fail("c10.term_order", f"{tag}: term_indices terms {[str(t) for t in ms.term_indices]} != formula terms {[str(t) for t in ms.formula]}")
+    elif [t for t in ms.term_indices] != list(ms.formula) and not case.get("cluster"):
         out.fail("c10.term_order", f"{tag}: term_indices order {[str(t) for t in ms.term_indices]} != formula order {[str(t) for t in ms.formula]}")
+    # every term's index range must hold exactly the columns whose names are built from that term's factors
+    for t, idx in ms.term_indices.items():
+        facs = [x.expr for x in t.factors if x.eval_method.value != "literal"]
+        for j in idx:
+            nm = names[j]
+            if nm == "Intercept":
+                ok = True
+            else:
+                parts = gen_split(nm)
+                # (under rank reduction a term may also emit lower-order columns: sub-labels are a subset of its factors)
+                owners = [next((fe for fe in facs if p == fe or p.startswith(fe + "[")), None) for p in parts]
+                ok = None not in owners and len(set(owners)) == len(owners)
+            if not ok:
+                out.fail("c10.term_indices_wrong_columns", f"{tag}: term {t} is indexed to column {j} named {nm!r}, which is not built from its factors {facs}")
+                return False
     for t, idx in ms.term_indices.items():
         sl = ms.term_slices[t]
         if list(range(*sl.indices(ncol))) != idx:
@@ -120,13 +144,16 @@ def judge(case) -> Outcome:
 
     out = Outcome()
     zero_col = any(v == 1 for v in case["levels"].values())
-    out.sig = (tuple(case["shape"]), zero_col, case["output"], case["lhs"], case["subset_k"])
+    out.sig = (tuple(case["shape"]), zero_col, case["output"], case["lhs"], case["subset_k"], case.get("cluster"), case.get("ordering"))
     df = make_frame({"cols": case["cols"], "index": None})
     f = case["formula"]
     tag = f"{f!r} out={case['output']}"
     try:
         with quiet():
-            res = model_matrix(f, df, output=case["output"], context={})
+            kw = {"cluster_by": case["cluster"]} if case.get("cluster") else {}
+            from formulaic import Formula
+
+            res = Formula(f, _ordering=case.get("ordering", "degree")).get_model_matrix(df, output=case["output"], context={}, **kw)
     except Exception as e:  # noqa: BLE001
         out.fail("c10.fit_raised", f"{tag}: {type(e).__name__}: {str(e)[:200]}")
         return out
